@@ -783,7 +783,7 @@ func c03r4(c *core.Ctx) {
 			if callsScript(sf) {
 				continue
 			}
-			guarded := hasReentrancyGuard(sf) || hasDepthParam(sf)
+			guarded := hasReentrancyGuard(sf) || hasDepthParam(sf) || hasVisitedSetGuard(sf)
 			c.Check(guarded, "object."+nt.Obj().Name()+"."+m.Name()+"|recursion-guard", p.Pos(sf.Pos()),
 				"method "+m.Name()+" of the self-containable container "+nt.Obj().Name()+" recurses into its elements"+ifs(viaJSON, " (through encoding/json → MarshalJSON)")+": a cyclic value exhausts the native stack (fatal, unrecoverable) unless the method carries a re-entrancy guard or depth bound")
 		}
@@ -1515,4 +1515,107 @@ func directBuiltinCallbackOnElements(sf *ssa.Function) token.Pos {
 		}
 	}
 	return token.NoPos
+}
+
+// hasVisitedSetGuard: the function asks a visited set about the container(s) it
+// is about to descend into and returns early when they are in it already.  The
+// set is recognised structurally: a method of a struct handed down as a
+// parameter that looks its argument(s) up in a map field of that struct and
+// inserts them, and whose boolean result leads to a return here.
+func hasVisitedSetGuard(sf *ssa.Function) bool {
+	for _, b := range sf.Blocks {
+		for _, in := range b.Instrs {
+			call, ok := in.(*ssa.Call)
+			if !ok || call.Referrers() == nil {
+				continue
+			}
+			g := call.Call.StaticCallee()
+			if g == nil || g.Blocks == nil || g.Signature.Recv() == nil || g.Signature.Results().Len() != 1 {
+				continue
+			}
+			if bt, ok := g.Signature.Results().At(0).Type().Underlying().(*types.Basic); !ok || bt.Kind() != types.Bool {
+				continue
+			}
+			// the receiver is handed down: a parameter of sf
+			if len(call.Call.Args) == 0 {
+				continue
+			}
+			fromParam := false
+			for _, pa := range sf.Params {
+				if call.Call.Args[0] == ssa.Value(pa) {
+					fromParam = true
+				}
+			}
+			if !fromParam || !isVisitedSetMethod(g) {
+				continue
+			}
+			// an argument of the call is the receiver of sf (the container being entered)
+			entersSelf := false
+			for _, a := range call.Call.Args[1:] {
+				for _, o := range core.Origins(a) {
+					if mi, ok := o.(*ssa.MakeInterface); ok {
+						o = mi.X
+					}
+					if len(sf.Params) > 0 && o == ssa.Value(sf.Params[0]) {
+						entersSelf = true
+					}
+				}
+			}
+			if !entersSelf {
+				continue
+			}
+			for _, r := range *call.Referrers() {
+				iff, ok := r.(*ssa.If)
+				if !ok {
+					continue
+				}
+				for _, i2 := range iff.Block().Succs[0].Instrs {
+					if _, ok := i2.(*ssa.Return); ok {
+						return true
+					}
+				}
+			}
+		}
+	}
+	return false
+}
+
+func isVisitedSetMethod(g *ssa.Function) bool {
+	recv := g.Params[0]
+	looks, inserts := false, false
+	keyFromParams := func(k ssa.Value) bool {
+		return core.DependsOn(k, func(w ssa.Value) bool {
+			for _, pa := range g.Params[1:] {
+				if w == ssa.Value(pa) {
+					return true
+				}
+			}
+			return false
+		})
+	}
+	onRecvMap := func(m ssa.Value) bool {
+		for _, o := range core.Origins(m) {
+			if u, ok := o.(*ssa.UnOp); ok {
+				if fa, ok := u.X.(*ssa.FieldAddr); ok && fa.X == ssa.Value(recv) {
+					return true
+				}
+			}
+		}
+		return false
+	}
+	for _, b := range g.Blocks {
+		for _, in := range b.Instrs {
+			switch x := in.(type) {
+			case *ssa.Lookup:
+				if onRecvMap(x.X) && keyFromParams(x.Index) {
+					looks = true
+				}
+			case *ssa.MapUpdate:
+				if onRecvMap(x.Map) && keyFromParams(x.Key) {
+					inserts = true
+				}
+			}
+		}
+	}
+	return looks && inserts
 }
